@@ -6,6 +6,7 @@ import (
 	"net/http"
 	"strings"
 	"sync"
+	"sync/atomic"
 	"time"
 )
 
@@ -191,6 +192,11 @@ func suiteV07(c *vctx) {
 		allNonces[string(nn)] = true
 	}
 	c.emit(fmt.Sprintf("law.C07.no_two_tokens_share_a_nonce %d", len(allNonces)), vtf(distinct))
+	suiteV07conc(c)
+}
+
+// suiteV07conc: the factory under concurrency (also run in a binary built with the race detector).
+func suiteV07conc(c *vctx) {
 	// … also when tokens are issued concurrently (every HTTP handler goroutine shares the factory)
 	{
 		fc, _ := NewWebSessionFactory(time.Minute)
@@ -224,6 +230,49 @@ func suiteV07(c *vctx) {
 		}
 		c.emit(fmt.Sprintf("law.C07.no_two_concurrently_issued_tokens_share_a_nonce %d", len(seen)), vtf(ok))
 	}
+	// … and checked concurrently: the handlers of one mux share one factory and run in their own
+	// goroutines. Every accepted check returns exactly the identity ITS token was issued for.
+	{
+		fc, _ := NewWebSessionFactory(time.Minute)
+		ids := []struct {
+			u   string
+			adm bool
+		}{{"bob", false}, {"root", true}, {"alice", false}, {"carol", true}, {"al", true}, {"x", false}, {"bob@example.org", false}, {"rooty", false}}
+		toks := make([]string, len(ids))
+		for i, id := range ids {
+			_, _, toks[i] = fc.Generate(id.u, id.adm)
+		}
+		dur := 250 * time.Millisecond
+		if c.thorough() {
+			dur = 3 * time.Second
+		}
+		var wg sync.WaitGroup
+		var wrong, refused, total int64
+		var first atomic.Value
+		stopAt := time.Now().Add(dur)
+		for w := 0; w < 16; w++ {
+			wg.Add(1)
+			go func(w int) {
+				defer wg.Done()
+				i := w % len(ids)
+				for n := 0; time.Now().Before(stopAt); n++ {
+					st, _, u, adm := fc.Check(toks[i])
+					atomic.AddInt64(&total, 1)
+					if st != 200 {
+						atomic.AddInt64(&refused, 1)
+					} else if u != ids[i].u || adm != ids[i].adm {
+						if atomic.AddInt64(&wrong, 1) == 1 {
+							first.Store(fmt.Sprintf("issued=(%s,%v) accepted-as=(%s,%v)", ids[i].u, ids[i].adm, u, adm))
+						}
+					}
+				}
+			}(w)
+		}
+		wg.Wait()
+		why, _ := first.Load().(string)
+		c.emit(fmt.Sprintf("law.C07.concurrent_checks_return_the_issued_identity checks=%d %s", total, vxs(why)), vtf(wrong == 0))
+		c.emit(fmt.Sprintf("law.C07.concurrent_checks_accept_valid_tokens refused=%d", refused), vtf(refused == 0))
+	}
 }
 
-func init() { vsuites["v07"] = suiteV07 }
+func init() { vsuites["v07"] = suiteV07; vsuites["v07c"] = suiteV07conc }
